@@ -437,3 +437,9 @@ func vrtSetDialConnEnd(c vrtPipeEnd) {
 func vrtDialURI() string { return "tcp://" + vrtDialAddr }
 
 func vrtLiveThreads() int { return -1 }
+
+// vrtLiveGoroutines: goroutines alive now, relative to the start of this harness run
+// (the engine counts its interpreter threads: 1 = only the harness itself).
+var vrtGoroutineBase int
+
+func vrtLiveGoroutines() int { return runtime.NumGoroutine() - vrtGoroutineBase + 1 }
